@@ -578,6 +578,7 @@ def distribution(summaries):
     for r in summaries:
         c = r["case"]
         dist["mode:" + r["mode"]] += 1
+        dist["kind:" + c.get("kind", "local")] += 1
         dist["shape:" + c["shape"]] += 1
         dist["scenario:" + c["scenario"]] += 1
         dist["attempts:%d" % c["attempts"]] += 1
@@ -601,11 +602,19 @@ def case_key(case, mode=""):
 # C05: the exit-code clause
 # ----------------------------------------------------------------------------
 def exit_code_cases(rng, n):
-    """n studies with local steps (all succeed / some fail / cancelled), each to
-    be run through `maestro run -fg` and through the `conductor` entry point on
-    the stored study; -> list of {"case", "mode"} items."""
+    """n study slots; each all-local study is run through `maestro run -fg` AND
+    through the `conductor` entry point on the stored study (all succeed /
+    some fail / flaky / a step creates the cancel lock / `maestro cancel`
+    before the conductor starts); every third slot is a study with SCHEDULED
+    steps run with the launcher's scripted scheduler (FINISHED / FAILED /
+    TIMEDOUT+restart / CANCELLED reports, cancel lock while jobs run, query
+    faults).  -> list of {"case", "mode"} items for `check_exit_codes`."""
     items = []
     for i in range(n):
+        if i % 3 == 2:
+            case = gen_scripted_study(rng, cancel=(i % 4 == 1), qfault=(i % 5 == 0))
+            items.append({"case": case, "mode": "fg" if (i // 3) % 2 == 0 else "conductor"})
+            continue
         r = i % 8
         if r == 6:
             case = gen_local_study(rng, cancel="step", scenario=rng.choice(["allok", "flaky"]),
@@ -624,17 +633,263 @@ def exit_code_cases(rng, n):
 
 
 def check_exit_codes(ck, items, tag="C05_e2e"):
-    """Runs the items; reports to ck (violation: the process exit code is not
-    the StudyStatus value of the verdict the run's own status rows / the trace
-    monitor give; mismatch: the Exec model's verdict differs).  Returns the
-    per-item summaries; adds a histogram under ck.cov['e2e_exit_codes']."""
-    work = os.path.join(common.WORK, tag)
+    """Runs the items; reports to ck.  VIOLATION: the process exit code is not
+    the StudyStatus value (0 FINISHED / 2 FAILURE / 3 CANCELLED) of the verdict
+    that the run's own status rows / the trace monitor (family 5 and the rest)
+    give; mismatch: the Exec model's trace or verdict differs.  Returns the
+    per-item summaries; puts a histogram under ck.cov['e2e_exit_codes']."""
+    work = os.path.join(common.WORK, tag + "_runs")
     shutil.rmtree(work, ignore_errors=True)
     for i, it in enumerate(items):
         it["dir"] = os.path.join(work, "c%d" % i)
-    summ = evaluate(ck, tag, items)
+    loc = [it for it in items if it["case"].get("kind") != "scripted"]
+    scr = [it for it in items if it["case"].get("kind") == "scripted"]
+    summ = evaluate(ck, tag, loc) if loc else []
+    summ += evaluate_scripted(ck, tag + "_sched", scr, pidnum=5) if scr else []
     shutil.rmtree(work, ignore_errors=True)
     ck.cov["e2e_exit_codes"] = distribution(summ)
     for r in summ:
         ck.count("e2e:" + case_key(r["case"], r["mode"]), nontrivial=r["attempts_run"] > 0 or r["mode"] == "precancel")
+    return summ
+
+
+# ----------------------------------------------------------------------------
+# end-to-end studies with SCHEDULED steps: the launcher registers the scripted
+# scheduler adapter (E2E_SCRIPTED) -- every adapter call is then observable, so
+# the complete Exec-model trace is compared (ExecCases.both_ok), through the
+# real command line, with the process exit code as the final status.
+# ----------------------------------------------------------------------------
+NONTERM = ["PENDING", "RUNNING", "RUNNING", None, "QUEUED", "WAITING"]
+
+
+def gen_scripted_study(rng, shape=None, cancel=False, qfault=False):
+    shape, nodes = H.gen_graph(rng, shape, nmax=5)
+    n = len(nodes)
+    names = rng.sample(NAMES, n)
+    rlimit = rng.choice([1, 1, 2, 0])
+    steps = []
+    for i, nd in enumerate(nodes):
+        st = {"name": names[i], "deps": [names[p] for p in nd["parents"]], "scheduled": nd["scheduled"],
+              "restart": nd["has_restart"], "cancel": False}
+        if nd["scheduled"]:
+            seq = []
+            for _ in range(rng.randint(1, 3)):
+                seq += [rng.choice(NONTERM) for _ in range(rng.randint(0, 2))]
+                t = rng.choices(["FINISHED", "FAILED", "TIMEDOUT", "CANCELLED", "UNKNOWN", "HWFAILURE"],
+                                weights=[60, 10, 14, 5, 4, 7])[0]
+                seq.append(t)
+                if t not in ("TIMEDOUT", "HWFAILURE"):
+                    break
+            if seq[-1] in ("TIMEDOUT", "HWFAILURE") or seq[-1] in NONTERM:
+                seq.append(rng.choice(["FINISHED", "FINISHED", "FAILED"]))
+            st["reports"] = seq
+            st["submit"] = [rng.random() < 0.85 for _ in range(6)]
+        else:
+            st["code"] = rng.choice([0, 0, 0, 3])
+        steps.append(st)
+    if cancel:
+        loc = [s for s in steps if not s["scheduled"]]
+        if loc:
+            rng.choice(loc)["cancel"] = True
+            for s in steps:
+                if s["scheduled"]:
+                    s["reports"] = ["RUNNING", "RUNNING"] + s["reports"][:-1] + ["CANCELLED"]
+    qcodes = ["OK"]
+    if qfault:
+        qcodes = [rng.choice(["OK", "OK", "NOJOBS"]) for _ in range(rng.randint(1, 4))] + \
+                 [rng.choice(["ERROR", "NOJOBS", "OK"]), "OK"]
+    return {"kind": "scripted", "shape": shape, "scenario": "scripted", "steps": steps, "params": [],
+            "attempts": rng.choice([1, 2, 3]), "throttle": rng.choice([0, 0, 1, 2]), "rlimit": rlimit,
+            "qcodes": qcodes, "cancel": "step" if cancel else "no"}
+
+
+def scripted_spec(case, d):
+    import yaml
+    alog, out = os.path.join(d, "adapter.log"), os.path.join(d, "out")
+    study = []
+    for st in case["steps"]:
+        if st["scheduled"]:
+            run = {"cmd": "echo scheduled-%s\n" % st["name"], "procs": 1}
+        else:
+            lines = []
+            if st.get("cancel"):
+                lines.append("touch %s/.cancel.lock" % out)
+            lines.append("echo '{\"call\": \"local\", \"inst\": \"%s\", \"pid\": '$$', \"code\": %d, \"lock\": %s}' >> %s"
+                         % (st["name"], st["code"], "true" if st.get("cancel") else "false", alog))
+            lines.append("exit %d" % st["code"])
+            run = {"cmd": "\n".join(lines) + "\n"}
+        if st["deps"]:
+            run["depends"] = list(st["deps"])
+        if st["restart"]:
+            run["restart"] = "echo restart-%s\n" % st["name"]
+        study.append({"name": st["name"], "description": "step %s" % st["name"], "run": run})
+    spec = {"description": {"name": STUDY, "description": "generated study for the scripted scheduler"},
+            "batch": {"type": "scripted", "host": "h", "bank": "b", "queue": "q"}, "study": study}
+    script = {"log": alog, "submit": {s["name"]: s["submit"] for s in case["steps"] if s["scheduled"]},
+              "reports": {s["name"]: s["reports"] for s in case["steps"] if s["scheduled"]},
+              "qcodes": case["qcodes"]}
+    return yaml.safe_dump(spec, default_flow_style=False, sort_keys=False), script
+
+
+def run_scripted_case(job):
+    case, d, mode = job
+    shutil.rmtree(d, ignore_errors=True)
+    os.makedirs(d)
+    text, script = scripted_spec(case, d)
+    with open(os.path.join(d, "spec.yaml"), "w") as f:
+        f.write(text)
+    with open(os.path.join(d, "script.json"), "w") as f:
+        json.dump(script, f)
+    out = os.path.join(d, "out")
+    env = {"E2E_MARK_LOG": os.path.join(d, "marks.log"), "E2E_POLL_SLEEP": str(POLL_SLEEP), "E2E_STUDY_DIR": out,
+           "E2E_SNAP_DIR": os.path.join(d, "snap"), "E2E_MAX_POLLS": "120", "E2E_SCRIPTED": os.path.join(d, "script.json")}
+    log = os.path.join(d, "run.log")
+    args = ["-s", POLL_SLEEP, "--attempts", case["attempts"], "--rlimit", case["rlimit"], "--throttle", case["throttle"],
+            "-o", out, "spec.yaml"]
+    res = {"mode": mode, "pre": []}
+    if mode == "fg":
+        rc, tail = launch("maestro", ["run", "-fg", "-y"] + args, d, env, logfile=log)
+    else:
+        rc0, tail0 = launch("maestro", ["run", "-n"] + args, d, {"E2E_SCRIPTED": env["E2E_SCRIPTED"]}, logfile=log)
+        res["pre"].append(["maestro run -n", rc0])
+        rc, tail = (rc0, tail0) if rc0 != 0 else launch("conductor", ["-t", POLL_SLEEP, out], d, env, logfile=log)
+    res["rc"], res["tail"] = rc, tail[-1500:]
+    return res
+
+
+def translate_scripted(case, d, res):
+    """-> (ecase or None, problems)"""
+    out = os.path.join(d, "out")
+    prob = []
+    try:
+        entries = [json.loads(ln) for ln in open(os.path.join(d, "adapter.log")).read().split("\n") if ln]
+    except Exception as e:
+        return None, ["adapter call log unreadable: %r; output tail: %s" % (e, res.get("tail", "")[-500:])]
+    # graph snapshots per poll (full job-id lists), last one from the study directory
+    npoll_marks = len(parse_marks(os.path.join(d, "marks.log")))
+    graphs = []
+    aborted = res["rc"] == 1 and any(e.get("call") == "check_jobs" and e.get("q") == "ERROR" for e in entries)
+    try:
+        for k in range(npoll_marks - 1):
+            graphs.append(read_graph(os.path.join(d, "snap", "graph.%d.pkl" % k))[0])
+        if not aborted:
+            graphs.append(read_graph(os.path.join(out, STUDY + ".pkl"))[0])
+    except Exception as e:
+        return None, ["execution-graph snapshot unreadable: %s: %s; output tail: %s"
+                      % (type(e).__name__, str(e)[:200], res.get("tail", "")[-400:])]
+    if not graphs:
+        return None, ["no snapshot at all (rc=%s): %s" % (res["rc"], res.get("tail", "")[-400:])]
+    inst = graphs[0]
+    ix = {nd["name"]: i for i, nd in enumerate(inst)}
+    by = {s["name"]: s for s in case["steps"]}
+    nodes = [{"parents": nd["parents"], "children": nd["children"], "scheduled": by[nd["name"]]["scheduled"],
+              "has_restart": nd["has_restart"], "rlimit": nd["rlimit"]} for nd in inst]
+    jobno, nxt = {}, 0
+    polls, cur = [], None
+    pending_cancel = None
+    for e in entries:
+        c = e["call"]
+        if c == "cancel_jobs":
+            pending_cancel = [jobno.get(str(j), 900 + len(jobno)) for j in e["jobs"]]
+            continue
+        if c == "check_jobs":
+            cur = {"cancel": pending_cancel is not None, "q": e["q"], "reports": [], "subs": [], "events": []}
+            if pending_cancel is not None:
+                cur["events"].append(["cancel", sorted(pending_cancel)])
+            pending_cancel = None
+            cur["events"].append(["check", sorted(jobno.get(str(j), 900) for j in e["jobs"])])
+            for j, v in e["answer"].items():
+                cur["reports"].append([cur_job_node[str(j)], v]) if str(j) in cur_job_node else prob.append("report for unknown job %s" % j)
+            polls.append(cur)
+            continue
+        if cur is None:
+            prob.append("adapter call %s before the first status query" % c)
+            continue
+        x = ix.get(e["inst"])
+        if x is None:
+            prob.append("adapter call for unknown instance %s" % e["inst"])
+            continue
+        if c == "write_script":
+            cur["events"].append(["gen", x])
+        elif c == "submit":
+            ok = e["job"] is not None
+            cur["subs"].append(ok)
+            if ok:
+                jobno[str(e["job"])] = nxt
+                cur_job_node[str(e["job"])] = x
+                cur["events"].append(["submit", x, "Restart" if e["restart"] else "Main", True, nxt])
+                nxt += 1
+            else:
+                cur["events"].append(["submit", x, "Restart" if e["restart"] else "Main", True, None])
+        elif c == "local":
+            ok = e["code"] == 0
+            cur["subs"].append(ok)
+            if ok:
+                jobno[str(e["pid"])] = nxt
+                cur["events"].append(["submit", x, "Main", False, nxt])
+                nxt += 1
+            else:
+                cur["events"].append(["submit", x, "Main", False, None])
+    if pending_cancel is not None:
+        prob.append("cancel_jobs without a following poll")
+    if len(polls) != len(graphs) + (1 if aborted else 0):
+        prob.append("%d status queries but %d snapshots" % (len(polls), len(graphs)))
+        return None, prob
+    for k, p in enumerate(polls):
+        if aborted and k == len(polls) - 1:
+            g = graphs[-1] if graphs else inst         # ABORT: nothing was written; rows = previous poll's
+            p["status"] = "ABORT"
+        else:
+            g = graphs[k]
+            p["status"] = "RUNNING" if k < len(polls) - 1 else STATUS_OF_RC.get(res["rc"])
+        p["rows"] = [[nd["state"], [jobno.get(j, 900) for j in nd["jobs"]], nd["restarts"]] for nd in g]
+    if polls[-1]["status"] is None:
+        prob.append("process exit code %r is not a verdict; tail: %s" % (res["rc"], res.get("tail", "")[-500:]))
+        return None, prob
+    ecase = {"nodes": nodes, "cfg": {"throttle": case["throttle"], "attempts": case["attempts"], "dry": False},
+             "polls": polls, "end": "final"}
+    return ecase, prob
+
+
+cur_job_node = {}
+
+
+def evaluate_scripted(ck, tag, items, pidnum=5):
+    """Scheduled-step studies through the command line with the scripted
+    adapter; inside Coq: ExecCases.both_ok pidnum (full trace correspondence +
+    monitor family on implementation and model)."""
+    results = pmap(run_scripted_case, [(it["case"], it["dir"], it["mode"]) for it in items])
+    lits, recs, summ = [], [], []
+    for it, res in zip(items, results):
+        cur_job_node.clear()
+        try:
+            ecase, prob = translate_scripted(it["case"], it["dir"], res)
+        except Exception as e:
+            ecase, prob = None, ["harness could not interpret the run: %r" % (e,)]
+        rec = {"case": it["case"], "mode": it["mode"], "rc": res["rc"], "problems": prob, "violations": [],
+               "polls": len(ecase["polls"]) if ecase else 0, "instances": len(it["case"]["steps"]),
+               "attempts_run": sum(1 for p in (ecase["polls"] if ecase else []) for e in p["events"] if e[0] == "submit"),
+               "impl": None if ecase is None else ecase["polls"]}
+        summ.append(rec)
+        if prob:
+            ck.mismatch("%s [%s]: %s" % (tag, it["mode"], prob[0]), slim(rec), res.get("tail", ""))
+        elif ecase is not None and H.representable(ecase):
+            lits.append(H.g_case(ecase))
+            recs.append(rec)
+        shutil.rmtree(it["dir"], ignore_errors=True)
+    bad, errs = common.coq_failing(tag, H.HEADER, "ecase", "both_ok %d" % pidnum, lits)
+    for e in errs:
+        ck.mismatch("coqc failed on the %s cases file" % tag, None, e[1])
+    if bad:
+        sub = [lits[i] for i in bad]
+        b_impl, _ = common.coq_failing(tag + "_i", H.HEADER, "ecase", "impl_ok %d" % pidnum, sub)
+        for k, i in enumerate(bad):
+            if k in b_impl:
+                codes = common.coq_eval(tag + "_e", H.HEADER, "impl_viol (%s)" % lits[i])
+                ck.violation("%s [%s]: monitor codes on the implementation's trace (exit code as final status): %s"
+                             % (tag, recs[i]["mode"], " ".join(codes.split())[-200:]), slim(recs[i]))
+            else:
+                mo = common.coq_eval(tag + "_e", H.HEADER, "model_obs (%s)" % lits[i])
+                ck.mismatch("%s [%s]: model and implementation observations differ" % (tag, recs[i]["mode"]),
+                            slim(recs[i]), mo[-3000:])
     return summ
